@@ -3,7 +3,10 @@ package checks
 import (
 	"errors"
 	"fmt"
+	"os"
 	"sync"
+
+	"github.com/jrhy/mast/persist/file"
 
 	"github.com/jrhy/mast"
 	"pgregory.net/rapid"
@@ -38,14 +41,14 @@ var c11WorkerWeights = core.OpWeights{
 func genC11(t *rapid.T, tier string) C11Case {
 	c := C11Case{Cfg: core.GenConfig(t, tier, core.GenOpts{
 		Caches: []string{"big"}, Vals: []string{core.VInt, core.VString},
-		Keys: []string{core.KLK, core.KLK, core.KInt, core.KString, core.KUint64},
+		Keys: []string{core.KLK, core.KLK, core.KInt, core.KString, core.KUint64, core.KStruct, core.KStruct, core.KBytes},
 		BFs:  []uint{2, 2, 3, 4, 16},
 	})}
-	c.Env = rapid.SampledFrom([]string{"frozen", "frozen", "real"}).Draw(t, "env")
+	c.Env = rapid.SampledFrom([]string{"frozen", "frozen", "frozen", "real", "real", "file"}).Draw(t, "env")
 	pool := len(c.Cfg.Pool())
 	c.Base = append(core.GenFill(t, pool, pool), core.GenProgram(t, core.OpWeights{core.OpInsertNew: 5, core.OpDelete: 5, core.OpPersist: 3}, 12, 1)...)
 	n := rapid.IntRange(2, 8).Draw(t, "nworkers")
-	identical := c.Env == "real" && rapid.Bool().Draw(t, "identical")
+	identical := c.Env != "frozen" && rapid.Bool().Draw(t, "identical")
 	var shared []core.Op
 	if identical {
 		shared = core.GenProgram(t, c11WorkerWeights, 30, 1)
@@ -95,6 +98,19 @@ func runC11(c C11Case, o *run.Obs) error {
 	var realCache mast.NodeCache
 	var base *env.FrozenBase
 	switch c.Env {
+	case "file":
+		dir, err := os.MkdirTemp(os.Getenv("VERIF_OUT"), "c11-")
+		if err != nil {
+			return fmt.Errorf("harness: %w", err)
+		}
+		defer os.RemoveAll(dir)
+		realStore = file.NewPersistForPath(dir)
+		realCache = mast.NewNodeCache(64)
+		for name, b := range w.Store.Snapshot() {
+			if err := realStore.Store(core.Ctx, name, b); err != nil {
+				return fmt.Errorf("harness: seeding the file store: %w", err)
+			}
+		}
 	case "real":
 		realStore = mast.NewInMemoryStore()
 		// a roomy cache or a small, constantly evicting one (evictions mean re-loads and re-publication)
@@ -131,6 +147,7 @@ func runC11(c C11Case, o *run.Obs) error {
 	// parent are distinct trees too (they share the parent's store/cache view and whatever the
 	// tree struct copies by value)
 	type parentState struct {
+		last   *core.Tree // the most recent clone in the chain
 		t      *core.Tree
 		store  mast.Persist
 		cache  mast.NodeCache
@@ -138,7 +155,7 @@ func runC11(c C11Case, o *run.Obs) error {
 	}
 	parents := map[int]*parentState{}
 	newView := func() (mast.Persist, mast.NodeCache, *env.FrozenCache) {
-		if c.Env == "real" {
+		if c.Env != "frozen" {
 			return realStore, realCache, nil
 		}
 		fc := env.NewFrozenCache(base)
@@ -167,15 +184,32 @@ func runC11(c C11Case, o *run.Obs) error {
 						return parent.M.DiffLinks(core.Ctx, empty.M, func(bool, interface{}) (bool, error) { return true, nil })
 					})
 				}
+				// and it carries unsaved changes: its clones share unpersisted nodes
+				for j := 0; j < 3; j++ {
+					if ki, ok := core.AbsentKey(parent.Model, len(w.Pool), ri*7+j*3); ok {
+						if err := w.Insert(parent, ki, j); err != nil {
+							o.Label("aborted:base-failure")
+							return nil
+						}
+					}
+				}
 				ps.t = parent
+				ps.last = parent
 				parents[ri] = ps
 			}
 			st.store, st.cache, st.fcache = ps.store, ps.cache, ps.fcache
+			// alternately a clone of the parent and a clone of the previous clone (clone chains)
+			from := ps.t
+			if i%2 == 1 {
+				from = ps.last
+			}
 			var err error
-			if st.t, err = w.Clone(ps.t); err != nil {
+			if st.t, err = w.Clone(from); err != nil {
 				o.Label("aborted:base-failure")
 				return nil
 			}
+			ps.last = st.t
+			st.last = nil // unsaved: nothing to reload before the first persist
 		case "fresh":
 			var mm *mast.Mast
 			if err := core.Safely("LoadMast", func() error { var e error; mm, e = w.NewRoot().LoadMast(core.Ctx, w.RemoteConfig(st.store, st.cache)); return e }); err != nil {
@@ -307,7 +341,7 @@ func runC11(c C11Case, o *run.Obs) error {
 			}
 		}
 	}
-	if c.Env == "real" {
+	if c.Env != "frozen" {
 		// the ARC cache cannot be instrumented without adding synchronisation; count by construction:
 		// >= 2 workers loaded the same root and at least one mutated
 		byRoot := map[int]int{}
